@@ -292,6 +292,12 @@ def case_rule(ctx, rule):
 def case_and_compare(ctx):
     F, rep = ctx.F, ctx.rep
     case_rule(ctx, "C15.R4")
+    rep.rule("C15.R7", "the three kinds of name live and die together: a scope's three tables (simple, common, proper) are created together and "
+             "none is carried over from an earlier scope -- every table pushed onto Environment.symbols is freshly constructed (C05.R8 "
+             "re-checked here), so a proper name behaves like a simple one when a block, a loop round or a call ends")
+    from .c05 import fresh_scope_rule as _fresh, ENV as _ENV
+    _env = common.inherent_methods(F, _ENV)
+    common.rerun_under(ctx, lambda c: _fresh(c, _env), "C15.R7")
     rep.rule("C15.R6", "whether a name was already lower-case is invisible: only the methods of Lowercased itself branch on its Ref / New "
              "variants; any other code that distinguishes them treats a name differently from its re-cased spelling")
     from .. import tables as _tables
